@@ -39,6 +39,7 @@ type vC12 struct {
 	evals    int64
 	distinct int64
 	cpu      map[string]time.Duration
+	sampled  map[string]bool
 }
 
 // timed adds the duration of f to the per-sub-harness total (reported as evidence, never an oracle).
@@ -51,6 +52,21 @@ func (c *vC12) timed(name string, f func()) {
 	}
 	c.cpu[name] += time.Since(t0)
 	c.mu.Unlock()
+}
+
+// sample records one written-out case per kind for the evidence file.
+func (c *vC12) sample(kind string, v map[string]any) {
+	c.mu.Lock()
+	if c.sampled == nil {
+		c.sampled = map[string]bool{}
+	}
+	dup := c.sampled[kind]
+	c.sampled[kind] = true
+	c.mu.Unlock()
+	if !dup {
+		v["kind"] = kind
+		c.rep.AddSample(v)
+	}
 }
 
 // caseDone registers one executed case; it returns false when the very same input was executed
@@ -119,11 +135,12 @@ func vC12Blocks(tier string) (small, wide []vBlockSpec) {
 func TestVerifC12(t *testing.T) {
 	logging.SetAllLoggers(logging.LevelFatal)
 	rep := vx.NewReport("C12", "fault_enumeration")
-	rep.Rule = "explicit block sets (every sequence of <= depth blobs over a listed alphabet, real layout code); per block: every blob x every " +
-		"commitment-proof operator, every blob x every inclusion-check operator, every in-namespace share range (all [start,end) of runs <= 24 shares, " +
-		"boundary classes of longer runs) x every range-result operator on the first range of each shape, every (start,end,height) over a real header store " +
-		"x every tuple-proof operator, and JSON-tree / byte operators on the wire forms; a case is one executed (input, claim) pair, distinct by a canonical " +
-		"hash of the input, non-trivial when the operator changed the honest input or claim"
+	rep.Rule = "explicit block sets (every sequence of <= depth blobs over a listed alphabet plus exact and last-byte-differing duplicates, real layout code, " +
+		"squares deduplicated by ODS hash); per block the honest path on EVERY blob (commitment proof, GetProof, Included) and EVERY in-namespace share range " +
+		"(all [start,end) of same-namespace runs <= 24 shares, boundary classes of longer runs); the tamper-operator alphabet on every blob of the small blocks, on the " +
+		"first blob of every (width, rows, position, padding, subtree width) class of the wide blocks and on the first range of every (width, shape, rows, namespace kind) " +
+		"class; every (start,end,height) with 0 <= start,end,height <= head+2 over a real header store x every tuple-proof operator; JSON-tree and byte operators on the " +
+		"wire forms. A case is one executed (input, claim) pair, distinct by a canonical hash of the input; non-trivial when the operator changed the honest input or claim"
 	rep.Assumptions = []string{
 		"ground truth for an accepted proof is recomputed from the real rsmt2d square (row NMTs rebuilt from the cells, share bytes compared cell by cell); hash / NMT / RS soundness is trusted",
 		"acceptance of a tampered proof is a violation only when what it states is false; labels the verifier does not authenticate (NamespaceID / NamespaceVersion / RowProof.Root of a commitment proof, StartRow/EndRow shifted together) are reported as 'accepted-true-claim', not as violations",
@@ -294,8 +311,8 @@ func TestVerifC12(t *testing.T) {
 				if b.Padding > 0 {
 					st.hist("blocks_with_layout_padding", "yes")
 				}
-				if len(b.Refs) >= 2 && b.W <= 16 {
-					rep.AddSample(map[string]any{"block": b.Spec.String(), "layout": b.layout(), "reference": vRefSummary(b)})
+				if len(b.Refs) >= 2 && b.W <= 16 && b.Padding > 0 {
+					c.sample("block", map[string]any{"block": b.Spec.String(), "layout": b.layout(), "reference": vRefSummary(b)})
 				}
 			}
 		}()
